@@ -14,7 +14,8 @@ tie T1:  harness/C09_wf.cpp `nodeio`: seeded random operation sequences on REAL 
 tie T2:  harness/C09_wf.cpp `design`: generated designs through the real frontend; the extracted wf_check runs
          on the graph after every construction statement, at every pass boundary of the real Default/Minimal
          post processors (hook), after repeated optimizeSubnet and after shuffleNodes.
-search:  an independent python re-implementation of the invariant (no Coq, no types) on the real dumps.
+search:  an independent python re-implementation of the invariant (no Coq; type agreement only for the kinds that
+         copy the driver's type to their output) on the real dumps.
 partial: use-after-free / out-of-bounds are not expressible in Gallina.  Thorough tier: the same corpora run
          through an ASan+UBSan build of gatery and of the harness -- supporting evidence only.
 """
@@ -101,6 +102,25 @@ def py_wf(lines, need_group):
             k = clocks[int(c)].count(f"{nid}.{cp}")
             if k != 1:
                 bad.append(f"node {nid} clock port {cp} registered {k} times with clock {c}")
+    # type agreement, restated independently for the kinds whose connectInput copies the driver's type to the output
+    def otype(d):
+        if d in ("-", "X"):
+            return None
+        m, p = map(int, d.split("."))
+        if m not in nodes or p >= len(nodes[m]["outs"]):
+            return None
+        return nodes[m]["outs"][p][0]
+    for nid, n in nodes.items():
+        k = n.get("kind") or ""
+        same_as_out = {"fwd": [0], "logic1": [0], "logic2": [0, 1], "reg": [0, 1], "shift": [0]}.get(k.split(":")[0])
+        if k.startswith("mux:"):
+            same_as_out = list(range(1, len(n["ins"])))
+        if same_as_out and n["outs"]:
+            for i in same_as_out:
+                if i < len(n["ins"]):
+                    t = otype(n["ins"][i])
+                    if t is not None and t != n["outs"][0][0]:
+                        bad.append(f"node {nid} ({k}): input {i} has type {t} but the node requires its output type {n['outs'][0][0]}")
     for gid, g in groups.items():
         if g["p"] == "X" or (g["p"] != "-" and int(g["p"]) not in groups):
             bad.append(f"group {gid}: parent missing")
